@@ -95,6 +95,9 @@ def call_algebraic(arr1, arr2):
     return "ok", np.asarray(out)
 
 
+import pipeline as PL
+
+
 def main():
     warnings.simplefilter("ignore")
     np.seterr(all="ignore")
@@ -112,9 +115,21 @@ def main():
             pairs += Z.zoo_pairs(rnd, full=thorough)
         work = [(p, rnd.choice(["Curve.intersect", "all_intersections"])) for p in pairs]
 
-    for p, route in work:
+    # the Lean model of the whole pipeline (exact rationals; Newton iterates rounded to 64 bits) on the pairs of
+    # degree <= 4 (cost): asked for all of them up front, compared below where the pair is in the domain
+    cfg = C.config_name()
+    drv = C.Driver()
+    model_idx = {}
+    budget = 500 if not thorough else 3000
+    for i, (p, route) in enumerate(work):
+        if max(len(p["n1"][0]), len(p["n2"][0])) <= 5 and len(model_idx) < budget and Z.net_is_f64(p["n1"]) and Z.net_is_f64(p["n2"]):
+            model_idx[i] = PL.ask_all_intersections(drv, cfg, p["n1"], p["n2"])
+    model_replies = drv.run() if drv.lines else []
+
+    for wi, (p, route) in enumerate(work):
         n1, n2 = p["n1"], p["n2"]
         d1, d2 = len(n1[0]) - 1, len(n2[0]) - 1
+        nfail0 = len(res.failures) + sum(res.dist.get("failure_keys", {}).values())
         arr1, arr2 = C.farr(n1), C.farr(n2)
         rc = {"pair": Z.jpair(p), "route": route}
         key = (rc["pair"]["n1"], rc["pair"]["n2"], route)
@@ -131,7 +146,20 @@ def main():
                   endpoint_roots=sum(1 for r in iso.roots if r.s_exact is not None or r.t_exact is not None) if why is None else 0,
                   degrees="%d x %d" % (min(d1, d2), max(d1, d2)) if max(d1, d2) <= 4 else "max degree 5-8",
                   outcome="raised" if st == "exc" else "returned")
+        if wi in model_idx:
+            impl = ("exc", out.split(":")[0]) if st == "exc" else \
+                ("ok", [(float(out[0, c]), float(out[1, c])) for c in range(out.shape[1])] if out.ndim == 2 and out.shape[0] == 2 else [], False)
+            mrep = model_replies[model_idx[wi]]
+            if mrep[0] == "ok":
+                mrep = ("ok", (mrep[1][0], 0))          # in-domain pairs never carry the coincident flag; compare the point sets
+            same, whynot = PL.same_result(impl, mrep, tol=Fr(1, 2 ** 26))
+            res.count(("model", key), nontrivial=False, model_tie="agree" if same else "differ")
+            pending_mismatch = None if same else (str(impl)[:300], str(model_replies[model_idx[wi]])[:300], whynot)
+        else:
+            pending_mismatch = None
         if st == "exc":
+            if pending_mismatch:
+                res.mismatch("all_intersections", rc, *pending_mismatch)
             res.failure("raised:" + out.split(":")[0], "%s (%s, %s): geometric strategy raised %s on a pair with %d "
                         "certified simple crossings" % (route, p["kind"], p["tag"], out, nroots), rc)
             continue
@@ -193,6 +221,8 @@ def main():
                             (len(dup), float(dup[0].mid()[0]), float(dup[0].mid()[1])))
             res.failure("spurious-or-duplicate", "%s (%s, %s): %s; %d certified crossings; %s" %
                         (route, p["kind"], p["tag"], "; ".join(what), len(iso.roots), shown), rc)
+        if pending_mismatch and len(res.failures) + sum(res.dist.get("failure_keys", {}).values()) == nfail0:
+            res.mismatch("all_intersections", rc, *pending_mismatch)
     res.emit()
     if rep:
         bad = bool(res.failures)
